@@ -491,7 +491,7 @@ func genProgram(g *vf.Rng, s *ref.State, img *mem.Image, n int) {
 }
 
 func C01(r *vf.Run) {
-	r.Rule = "three layers, all seeded: (1) every opcode x (M,X) x stale-copy flag x boundary-directed valuations (coverage-guided choice among candidates using the model's wrap events); (2) random instruction streams run in lockstep for up to 256 steps; (3) exhaustive 8-bit ADC/SBC/CMP operand x accumulator x carry in binary and decimal; (4) programs assembled with the library's own Emitter (labels, branches, data, width switches) run in lockstep. Both interpreters are compared with the independent model after every step on A,X,Y,S,D,DBR,K,PC,P,E and on final memory over the union of written addresses. A cell is (opcode, M, X) or (addressing mode, wrap event)"
+	r.Rule = "three layers, all seeded: (1) every opcode x (M,X) x stale-copy flag x boundary-directed valuations (coverage-guided choice among candidates using the model's wrap events); (2) random instruction streams run in lockstep for up to 256 steps, and long runs of 65,536+ consecutive steps on one instruction or tiny loop (full-bank block moves, branches to themselves, counting loops, PC and S wrapping all the way round); (3) exhaustive 8-bit ADC/SBC/CMP operand x accumulator x carry in binary and decimal; (4) programs assembled with the library's own Emitter (labels, branches, data, width switches) run in lockstep. Both interpreters are compared with the independent model after every step on A,X,Y,S,D,DBR,K,PC,P,E and on final memory over the union of written addresses. A cell is (opcode, M, X) or (addressing mode, wrap event)"
 	r.Assume = []string{
 		"the reference model in /verif/internal/ref is the WDC programming model (written from the data sheet; shares no code with /repo)",
 		"abstentions: A/N/V/Z/C after decimal ADC/SBC with invalid BCD operands, V after any decimal operation, steps whose reads and writes alias other than the operand RMW (bus micro-order)",
@@ -514,6 +514,17 @@ func C01(r *vf.Run) {
 					}
 				}
 			}
+			w.flush()
+		})
+	}
+	if r.Phase("long-runs") {
+		per := r.N(1, 8)
+		r.Parallel(ncpu, len(longRunKinds)*per, func(wi, ci int) {
+			w := newC01Worker(r)
+			g := r.Rand("long").Fork(uint64(ci))
+			kind := longRunKinds[ci%len(longRunKinds)]
+			s, img, steps := longRunCase(g, kind)
+			w.longRun(kind, s, img, steps, g)
 			w.flush()
 		})
 	}
@@ -679,6 +690,9 @@ func C01(r *vf.Run) {
 			for mx := 0; mx < 4; mx++ {
 				r.Require(fmt.Sprintf("op%02x:mx%d", op, mx))
 			}
+		}
+		for _, k := range longRunKinds {
+			r.Require("long:" + k)
 		}
 		for _, c := range []string{"ev:(dp),Y:index-bank-carry", "ev:(dp),Y:ea24-overflow", "ev:abs,X:ea24-overflow", "ev:long,X:ea24-overflow", "ev:abs:data24-wrap",
 			"ev:abs:data-bank-cross", "ev:dp:dp-wrap", "ev:dp:bank0-data-wrap", "ev:(dp):ptr-wrap", "ev:[dp]:ptr-wrap", "ev:(abs,X):ptr-wrap", "ev:imp:stack-wrap",
